@@ -95,6 +95,8 @@ def build_kwargs(inst, G):
         kw["flow_attr"] = "flow"
     if "k" in inst:
         kw["k"] = inst["k"]
+    if inst.get("k_none"):
+        kw["k"] = None       # explicit k=None: the model chooses k itself
     if "mode" in inst:
         kw["cover_type" if cover else "flow_attr_origin"] = inst["mode"]
     if "wt" in inst and not cover:
